@@ -21,7 +21,7 @@ import multiprocessing as mp
 import os
 import random
 
-from . import common, conc, pipeline, tlc
+from . import common, conc, findings, pipeline, tlc
 from .common import Result
 
 PROPS = ('C04', 'C05', 'C06', 'C07')
@@ -79,11 +79,13 @@ TIERS = {
     'quick': dict(stp_mc=(3, '{1, 2, 3}'), lpm_mc=(3, '{1, 2}', '{1, 2}'),
                   stp_cover=(2, '{1, 2}'), lpm_cover=(2, '{1, 2}', '{1, 2}'),
                   stp_dfs=(2, [1, 2], 400), lpm_dfs=(2, [1, 2], [1, 2], 60),
-                  rand=dict(count=600, n=(4, 8), bufs=(1, 2, 3), ws=(1, 2, 3))),
+                  rand=dict(count=600, n=(4, 8), bufs=(1, 2, 3), ws=(1, 2, 3)),
+                  ds=dict(maxn=3, ws=[1, 2], bufs=[1, 2], seeds=2, real_rounds=1)),
     'thorough': dict(stp_mc=(4, '{1, 2, 3}'), lpm_mc=(4, '{1, 2, 3}', '{1, 2, 3}'),
                      stp_cover=(3, '{1, 2, 3}'), lpm_cover=(3, '{1, 2}', '{1, 2}'),
                      stp_dfs=(3, [1, 2, 3], 100000), lpm_dfs=(3, [1, 2], [1, 2], 1500),
-                     rand=dict(count=20000, n=(4, 12), bufs=(1, 2, 3, 4), ws=(1, 2, 3))),
+                     rand=dict(count=20000, n=(4, 12), bufs=(1, 2, 3, 4), ws=(1, 2, 3)),
+                     ds=dict(maxn=4, ws=[1, 2, 3], bufs=[1, 2, 3], seeds=6, real_rounds=12)),
 }
 
 
@@ -243,6 +245,55 @@ def _rand_job(job):
     return rec
 
 
+def _ds_job(job):
+    cfg, seed = job
+    rec, sched = conc.run_ds(cfg, conc.random_chooser(seed))
+    rec['how'] = 'random'
+    return rec
+
+
+BACKENDS = ['t', 'mp', 'dill_mp', 'multiprocessing', 'concurrent_mp']
+
+
+def real_configs(rounds, rng):
+    """Sampled real runs of every back end (uncontrolled: the OS schedules)."""
+    base = [
+        dict(api='prefetch', n=6, buf=2, w=2, fn_fail=[], fail_kind='filter', cfe=0, stop='exhaust', stop_k=0),
+        dict(api='parmap', n=6, buf=3, w=2, fn_fail=[3], fail_kind='other', cfe=0, stop='exhaust', stop_k=0),
+        dict(api='prefetch', n=8, buf=2, w=2, fn_fail=[2, 5], fail_kind='filter', cfe=1, stop='close', stop_k=2),
+        dict(api='parmap', n=7, buf=3, w=3, fn_fail=[], fail_kind='filter', cfe=0, stop='close', stop_k=2),
+        dict(api='prefetch', n=6, buf=2, w=2, fn_fail=[2, 5], fail_kind='filter', cfe=1, stop='exhaust', stop_k=0),
+    ]
+    out = []
+    for r in range(rounds):
+        for b in BACKENDS:
+            for c in base:
+                c = dict(c, backend=b, delays=[0.02, 0.0, 0.01])
+                if r > 0:
+                    c['n'] = rng.randint(4, 10)
+                    c['buf'] = rng.randint(c['w'], 4)
+                    c['delays'] = [rng.choice([0, 0.005, 0.02]) for _ in range(3)]
+                    if c['fn_fail']:
+                        c['fn_fail'] = sorted(rng.sample(range(1, c['n'] + 1), min(len(c['fn_fail']), c['n'])))
+                    if c['stop'] == 'close':
+                        c['stop_k'] = rng.randint(1, c['n'])
+                out.append(c)
+    return out
+
+
+def _real_job(cfg):
+    import tempfile
+    from . import realpool
+    d = tempfile.mkdtemp(prefix='verif-real-')
+    try:
+        rec = realpool.run(cfg, d)
+    finally:
+        import shutil
+        shutil.rmtree(d, ignore_errors=True)
+    rec['how'] = 'real-' + cfg['backend']
+    return rec
+
+
 def random_configs(rng, spec):
     out = []
     for i in range(spec['count']):
@@ -273,6 +324,8 @@ def random_configs(rng, spec):
 STP_FIELDS = ('id', 'n', 'buf', 'fail_at', 'fail_cls', 'stop', 'stop_k', 'events', 'delivered',
               'end', 'alive', 'deadlock')
 LPM_FIELDS = STP_FIELDS + ('w', 'fn_fail')
+DS_FIELDS = ('id', 'api', 'n', 'buf', 'w', 'fn_fail', 'fail_kind', 'cfe', 'stop', 'stop_k', 'events',
+             'delivered', 'end', 'alive', 'deadlock', 'len_ok')
 
 
 def explore(tier, res):
@@ -302,19 +355,31 @@ def explore(tier, res):
     n, ws, bufs, budget = t['lpm_dfs']
     jobs_dfs += [('lpm', c, budget) for c in conc.lpm_configs(n, ws, bufs)]
     jobs_rand = random_configs(rng, t['rand'])
+    dsp = t['ds']
+    jobs_ds = [(c, rng.randrange(1 << 30)) for c in conc.ds_configs(dsp['maxn'], dsp['ws'], dsp['bufs'])
+               for _ in range(dsp['seeds'])]
+    jobs_real = real_configs(dsp['real_rounds'], rng)
     with mp.get_context('fork').Pool(common.NCPU) as pool:
         r1 = pool.map_async(_replay_job, jobs_replay, chunksize=20)
         r2 = pool.map_async(_dfs_job, jobs_dfs, chunksize=1)
         r3 = pool.map_async(_rand_job, jobs_rand, chunksize=20)
+        r4 = pool.map_async(_ds_job, jobs_ds, chunksize=20)
         replayed = r1.get(1800)
         dfs = r2.get(3600)
         rand = r3.get(1800)
+        dsrecs = r4.get(1800)
+    # the real back ends fork their own pools: run them from a small pool of
+    # fresh processes, a few at a time
+    with mp.get_context('spawn').Pool(4) as pool:
+        real = pool.map_async(_real_job, jobs_real, chunksize=1).get(3600)
     exhausted = sum(1 for _, ex in dfs if ex)
     info.append({'real_schedule_dfs_configs': len(jobs_dfs), 'exhausted_configs': exhausted,
                  'dfs_executions': sum(len(x) for x, _ in dfs), 'random_executions': len(rand),
-                 'cover_replays': len(replayed)})
+                 'cover_replays': len(replayed),
+                 'dataset_level_controlled': len(dsrecs),
+                 'real_backend_runs (sampling, OS-scheduled)': len(real)})
     res.coverage['exploration'] = info
-    records = list(replayed) + [r for x, _ in dfs for r in x] + list(rand)
+    records = list(replayed) + [r for x, _ in dfs for r in x] + list(rand) + list(dsrecs) + list(real)
     for i, r in enumerate(records):
         r['id'] = i + 1
     return records
@@ -322,7 +387,8 @@ def explore(tier, res):
 
 def validate(records, res):
     verdicts = {}
-    for kind, module, fields in (('stp', 'STPTrace', STP_FIELDS), ('lpm', 'LPMTrace', LPM_FIELDS)):
+    for kind, module, fields in (('stp', 'STPTrace', STP_FIELDS), ('lpm', 'LPMTrace', LPM_FIELDS),
+                                 ('ds', 'DSTrace', DS_FIELDS)):
         sub = [{k: r[k] for k in fields} for r in records if r['kind'] == kind]
         v, st = pipeline.validate_records(sub, module=module + '.tla', cfg=module + '.cfg', chunk=2500)
         res.add_tlc(st)
@@ -342,6 +408,7 @@ def run(prop, tier):
     res.coverage['traces_validated_against_impl'] = len(records)
     res.coverage['evaluations'] = len(records)
     by = collections.Counter()
+    known = {}
     distinct = set()
     samples = []
     for r in records:
@@ -352,7 +419,7 @@ def run(prop, tier):
             distinct.add(json.dumps(r['events']))
             if len(samples) < 3 and len(distinct) % 400 == 1:
                 samples.append({'kind': r['kind'],
-                                'config': {k: r[k] for k in ('n', 'buf', 'stop', 'stop_k', 'fail_at', 'fail_cls')},
+                                'config': {k: r.get(k) for k in ('api', 'n', 'buf', 'w', 'stop', 'stop_k', 'fail_at', 'fail_cls', 'fn_fail')},
                                 'how': r['how'], 'end': r['end'], 'delivered': r['delivered'],
                                 'log': [f"{e['th']}:{e['op']}({e['a']},{e['b']})" for e in r['events']]})
         if r.get('diverged'):
@@ -362,17 +429,25 @@ def run(prop, tier):
             res.drift.append({'where': f'event {v["conf"]} not explained by the specification',
                               'kind': r['kind'],
                               'config': {k: r.get(k) for k in ('n', 'buf', 'w', 'stop', 'stop_k', 'fail_at', 'fail_cls', 'fn_fail')}})
-        if status == 'viol' and len(res.violations) < 25:
+        kf = findings.match_conc(prop, clause, r) if status == 'viol' else None
+        if kf is not None:
+            known[kf['id']] = known.get(kf['id'], 0) + 1
+            if known[kf['id']] == 1:
+                res.known_finding(kf['id'], kf['what'])
+        elif status == 'viol' and len(res.violations) < 25:
             res.violation(
-                f'{clause} ({r["kind"]}: n={r["n"]} buf={r["buf"]} stop={r["stop"]}@{r["stop_k"]} '
-                f'fail={r["fail_cls"]}@{r["fail_at"]}, {r["how"]} schedule)',
+                f'{clause} ({r["kind"]}/{r.get("api", "")}/{r.get("backend", "t")}: n={r["n"]} buf={r["buf"]} '
+                f'w={r.get("w", 1)} stop={r["stop"]}@{r["stop_k"]} '
+                f'fail={r.get("fail_cls", r.get("fail_kind"))}@{r.get("fail_at", r.get("fn_fail"))}, {r["how"]})',
                 {'family': 'conc', 'kind': r['kind'],
-                 'cfg': {k: r[k] for k in r if k in ('n', 'buf', 'w', 'fail_at', 'fail_cls', 'fn_fail', 'stop', 'stop_k')},
+                 'cfg': {k: r[k] for k in r if k in ('api', 'backend', 'n', 'buf', 'w', 'fail_at', 'fail_cls',
+                                                      'fn_fail', 'fail_kind', 'cfe', 'stop', 'stop_k')},
                  'events': r['events'], 'end': r['end'], 'delivered': r['delivered'],
                  'deadlock': r['deadlock'], 'alive': r['alive'], 'verdict': [status, clause],
                  'how': 'controlled execution of the real threads, log judged by TLC'})
     res.coverage['distinct_nontrivial'] = len(distinct)
     res.coverage['verdicts'] = dict(by)
+    res.coverage['known_finding_hits'] = known
     res.coverage['samples'] = samples or [{'note': 'no non-trivial execution'}]
     res.coverage['rule'] = (
         'one case = one controlled execution of the real single_thread_prefetch / '
